@@ -242,3 +242,39 @@ Proof.
   intros Hsp Hf. replace f with (length sp + S (f - length sp - 1))%nat by lia.
   rewrite (ptoken_skip sp _ d _ Hsp). reflexivity.
 Qed.
+
+(* punctuation needs no condition on what follows *)
+Lemma relex_punct c r2 sp f d : is_punct c = true -> c <> 10 ->
+  Forall (fun c => is_sp c = true) sp -> (length sp + 3 <= f)%nat ->
+  ptoken f d (sp ++ [c] ++ r2) = PTok (KPunct c) [c] r2.
+Proof.
+  intros Hp Hc Hsp Hf. replace f with (length sp + S (f - length sp - 1))%nat by lia.
+  rewrite (ptoken_skip sp _ d _ Hsp). pose proof (is_punct_small _ Hp) as Hsm.
+  assert (Hst : starts_tok ([c] ++ r2)).
+  { unfold starts_tok, ppeek. cbn [app]. rewrite decode_ascii_head by exact Hsm. cbn [fst].
+    unfold is_sp. unfold is_punct in Hp.
+    repeat (apply orb_true_iff in Hp as [Hp|Hp]); apply Z.eqb_eq in Hp; subst c; reflexivity. }
+  rewrite (ptoken_start _ d _ Hst). unfold ptok0. cbn [app].
+  rewrite !has_prefix_head_ne by (apply is_punct_not47; exact Hp).
+  unfold pmain. cbn [snil]. unfold ppeek, prune. rewrite decode_ascii_head by exact Hsm. cbn [fst skipn].
+  rewrite Hp. change (c :: r2) with ([c] ++ r2). rewrite ptext_app. reflexivity.
+Qed.
+
+(* a token text of punctuation kind *)
+Lemma lexed_punct c x : lexed (KPunct c) x -> x = [c] /\ is_punct c = true.
+Proof.
+  intros (f & d & r1 & H). unfold ptok0 in H.
+  destruct (has_prefix (x ++ r1) [47; 47]) eqn:Ess.
+  { destruct (pcomment_shape _ _ _ _ _ _ Ess H) as (E & _). destruct d; discriminate. }
+  destruct (has_prefix (x ++ r1) [47; 42]); [discriminate|].
+  destruct (pmain_shape _ _ _ _ _ H) as (_ & Hsh). exact Hsh.
+Qed.
+
+(* the kind of a token text that is an opening or closing bracket or a comma *)
+Lemma lexed_kind_punct k x c : is_ltok k = true -> lexed k x -> x = [c] -> is_punct c = true -> k = KPunct c.
+Proof.
+  intros Hk (f & d & r1 & H) -> Hp. unfold ptok0 in H. pose proof (is_punct_small _ Hp) as Hsm.
+  cbn [app] in H. rewrite !has_prefix_head_ne in H by (apply is_punct_not47; exact Hp).
+  unfold pmain in H. cbn [snil] in H. unfold ppeek, prune in H. rewrite decode_ascii_head in H by exact Hsm.
+  cbn [fst skipn] in H. rewrite Hp in H. injection H as <- _. reflexivity.
+Qed.
